@@ -59,7 +59,7 @@ CHECKS = {
         "the map, finish moves it unchanged, get_source_location == lookup for every sorted map; Kani contracts on Lexer::advance for every Unicode scalar value "
         "(line/column/byte stepping, LF/LS/PS), make_span, Parser::span_from and Parser::error; bounded Kani harnesses for checkpoint/restore; a bounded native enumeration (all sources of length <= 5 over 15 symbols) "
         "for token spans and the parser's two re-scan entry points, which Kani could not decide; a Verus contract on the real BytecodeVM::build_stack_trace (result == running activation, then every suspended caller "
-        "innermost first, each once, each located/named/filed by its own chunk); a side battery (about 640 fault-planted programs x layouts x call shapes) links the layers to reported traces (testing, not proof).",
+        "innermost first, each once, each located/named/filed by its own chunk); a side battery (about 750 fault-planted programs x layouts x call shapes) links the layers to reported traces (testing, not proof).",
    note="Trusted: Verus+Z3, Kani/CBMC, Option::is_none_or std contract. NOT carried: parser token->AST spans, compile_* calling set_span with the node being compiled, "
         "trace propagation across nested VMs, error formatting (DESIGN §4.2). build_stack_trace: iter().rev() rewritten to an index loop (rule R11, trusted), carried types opaque. checkpoint/restore and the token-span enumeration are BOUNDED stand-ins, never counted as proved.",
    technique="contract-based deductive verification (Verus postconditions + frame conditions on in-place annotated real code; Kani contracts for lexer stepping)",
